@@ -205,6 +205,30 @@ func oracle(c Case, p *progs.Prog) schedx.Oracle {
 				}
 			}
 		}
+		// the snapshot files: "all stores built up to the hand-off" also when no linear part follows (the request ends at
+		// the hand-off and nobody asks for the final store map): the full snapshot at the end of the store range must exist
+		// for every store that starts below it and hold what a sequential execution gives
+		if end, ok := w.BuildStoresEnd(); ok {
+			it, err := script.NewInterp(p.Modules, p.Output)
+			if err != nil {
+				return "harness: " + err.Error()
+			}
+			for n := it.LowestInit(); n < end; n++ {
+				it.Step(script.Blk{Num: n, ID: sysrun.BlockID(n)})
+			}
+			for name := range it.Stores {
+				if it.InitOf(name) >= end {
+					continue
+				}
+				g, err := sysrun.ReadSnapshot(w.Dir, p.Modules, p.Output, name, end)
+				if err != nil {
+					return fmt.Sprintf("store %s has no readable full snapshot at %d, the end of the planned store range: %v", name, end, err)
+				}
+				if want := it.StoreDump(name); g != want {
+					return fmt.Sprintf("the snapshot of store %s at %d holds {%s}, a sequential execution gives {%s}", name, end, g, want)
+				}
+			}
+		}
 		return ""
 	}}
 }
